@@ -228,12 +228,15 @@ def gen_cases(rng, tier):
                             const_f = rng.choice([True, "arr"]) if rng.random() < 0.3 else False
                             cases.append({"family": "boundary", **_base(rng, time, D, 2, M, 2, B), "bkind": bkind,
                                           "dx": dx, "facets": facets, "dim": dim, "f": f, "f_float": const_f})
+    # a one-component initial condition written without the component axis, one space dimension, several points
+    cases.append({"family": "ic", "f_drop": True, **_base(rng, True, 2, 2, 1, 2, rng.choice([2, 4])),
+                  "f": [_rand_poly(rng, 2, 2, 3).subs_affine(0, 0, 0).to_json()], "w": "1"})
     # ---- scalar terms: initial condition, normalisation, one-facet boundary mean (grid sizes powers of two) ----
     for _ in range(reps):
         for dx in (1, 2):
             for B in ([rng.choice([1, 2, 4])] if quick else [1, 2, 4]):
                 for M in (1, 2):
-                    cases.append({"family": "ic", **_base(rng, True, dx + 1, 2, M, 2, B),
+                    cases.append({"family": "ic", "f_drop": M == 1 and B >= 2, **_base(rng, True, dx + 1, 2, M, 2, B),
                                   "f": [_rand_poly(rng, dx + 1, 2, 3).subs_affine(0, 0, 0).to_json() for _ in range(M)],
                                   "w": _q(rng.choice([1, 2, Fraction(1, 2)]))})
         for D in (1, 2, 3):
@@ -372,7 +375,7 @@ def _set(template, arr):
     return eqx.tree_at(lambda n: n.coef, template, arr)
 
 
-def _polyfun(polys_json, nv, split_time):
+def _polyfun(polys_json, nv, split_time, drop_axis=False):
     """a user function (boundary / initial condition) evaluating exact integer polynomials on the last axis;
     `split_time`: signature f(t, x), else f(x)"""
     import jax.numpy as jnp
@@ -390,7 +393,8 @@ def _polyfun(polys_json, nv, split_time):
                         t = t * z[..., k]
                 tot = tot + t
             outs.append(tot)
-        return jnp.stack(outs, axis=-1)
+        # drop_axis: the documented other way of writing a one-component function (no trailing component axis)
+        return outs[0] if drop_axis else jnp.stack(outs, axis=-1)
 
     if split_time:
         return lambda t, x: ev(jnp.concatenate([t, x], axis=-1))
@@ -626,7 +630,7 @@ def run_impl(case):
         pts_q = _grid_points([row[1:] for row in case["X"]])
         PTS = jnp.asarray([[float(v) for v in p] for p in pts_q], dtype=jnp.float64)
         fpoly = [[[c, e[1:]] for c, e in pj] for pj in case["f"]]
-        f = _polyfun(fpoly, D - 1, False)
+        f = _polyfun(fpoly, D - 1, False, drop_axis=bool(case.get("f_drop")) and M == 1)
         w = float(Fraction(case["w"]))
         fwd, ferr = _try(lambda: initial_condition_apply(sp, Xo, params_s, (0, None), f, Xo.shape[0], w))
         rev, rerr = _try(lambda: initial_condition_apply(pinn, PTS, params_p, (0, None), f, PTS.shape[0], w))
